@@ -1469,8 +1469,11 @@ fn format_to_cat(mac: &syn::Macro) -> Option<String> {
     if pieces.is_empty() {
         return Some("String::new()".into());
     }
-    let mut acc = format!("vx_cat2(\"\", {})", pieces[0]);
-    for p in &pieces[1..] {
+    if pieces.len() == 1 {
+        return Some(format!("vx_cat2({}, vx_empty())", pieces[0]));
+    }
+    let mut acc = format!("vx_cat2({}, {})", pieces[0], pieces[1]);
+    for p in &pieces[2..] {
         acc = format!("vx_cat2(({}).vx_str(), {})", acc, p);
     }
     Some(acc)
